@@ -255,6 +255,37 @@ func swBuild() []swCase {
 			out = append(out, swCase{"statement/" + st.name + "/" + place, []string{"C04", "C08", "C09"}, mk(true), mk(false)})
 		}
 	}
+	// fault storms: the same fault swallowed N times in one run (N on the generic size marks), then the
+	// fault-free constructs: a counter, a depth, a pool or a table that every handled failure leaks into
+	storm := []struct{ name, expr, v string }{
+		{"fn-body-throws", "thr(1)", "5"},
+		{"nested-fn-body-throws", "f3(1, thr(2), 3)", "5"},
+		{"variadic-body-throws", "fv(1, -2)", "5"},
+		{"unbound", "1 + missing9", "5"},
+		{"host-panic", "pe(97)", "5"},
+		{"index-out-of-range", "l9[99]", "5"},
+		{"callback-throws", "len(strings9.Map(func(c) { throw \"bad\" }, \"ab\"))", "5"},
+		{"closure-throws", "func() { var loc = 1; throw \"x\" }()", "5"},
+	}
+	for _, st := range storm {
+		for _, n := range []int{1000, 4097, 65537, 200000} {
+			if st.name == "host-panic" && n > 4097 {
+				continue // every pe() records an event: the budget of a run
+			}
+			for _, sw := range []string{"coalesce", "try"} {
+				body := func(e string) string {
+					if sw == "coalesce" {
+						return "acc9 += (" + e + ") ?? " + st.v
+					}
+					return "try { acc9 += " + e + " } catch e7 { acc9 += " + st.v + " }"
+				}
+				mk := func(e string) string {
+					return swPrelude + fmt.Sprintf("r = 0\nacc9 = 0\nfor i9 = 0; i9 < %d; i9++ { %s }\nr = acc9\ng9 = func(a) { for x in [1, 2, 3] { for y in [4, 5] { if y == 5 && x == a { return [x, y] } } }; return nil }\nr = [r, g9(2), g9(7)]\n", n, body(e)) + swAfter
+				}
+				out = append(out, swCase{fmt.Sprintf("storm-%d/%s/%s", n, st.name, sw), []string{"C04", "C05", "C07", "C08", "C09", "C11"}, mk(st.expr), mk(st.v)})
+			}
+		}
+	}
 	return out
 }
 
